@@ -24,6 +24,7 @@ import (
 	"strconv"
 	"strings"
 	"sync"
+	"sync/atomic"
 	"testing"
 	"testing/synctest"
 	"time"
@@ -101,6 +102,7 @@ type c3Net struct {
 	nm, nh   int
 	nd, nc   int
 	nt       int
+	dying    atomic.Bool
 	countOut string // child mode: counters are rewritten here after every request
 }
 
@@ -180,6 +182,9 @@ func (b *c3Body) Read(p []byte) (int, error) {
 func (b *c3Body) Close() error { return nil }
 
 func (n *c3Net) RoundTrip(req *http.Request) (*http.Response, error) {
+	if n.dying.Load() {
+		select {} // child mode: the process is about to die of the panic; make no further request
+	}
 	n.mu.Lock()
 	defer n.mu.Unlock()
 	defer func() {
@@ -317,6 +322,9 @@ func (n *c3Net) generic(req *http.Request, r c3Reply, pass func(arg string) (*ht
 	case "neterr":
 		return nil, errors.New("NETERR")
 	case "unauth":
+		if n.countOut != "" && !c3ProbeFixed() && strings.HasPrefix(c3HdrDetail(r.arg), "header ends") {
+			n.dying.Store(true)
+		}
 		resp := c3Resp(req, 401, nil, c3BytesBody([]byte("unauthorized")))
 		resp.Header["Www-Authenticate"] = []string{r.arg}
 		return resp, nil
@@ -568,6 +576,7 @@ type c3Result struct {
 	counts   string
 	statuses []string
 	errText  string
+	died     bool // child process died (panic on the download goroutine)
 }
 
 // c3Setup points the process at a store and installs the signing key getAuthorizationToken needs.
